@@ -77,9 +77,16 @@ var tableOps = []string{":-", "-", ":=", "=", ":?", "?", ":+", "+"}
 func C13_Table() {
 	op := tableOps[nd.Choice(len(tableOps))]
 	st := nd.Choice(3)
-	positional := nd.Choice(2) == 1
+	kind := nd.Choice(4) // variable, positional parameter 1, $*, $@
+	positional := kind != 0
+	special := kind >= 2
 	quoted := nd.Choice(2) == 1
 	nounset := nd.Choice(2) == 1
+	if special && st == stUnset {
+		// no positional parameters: "unset" or "set but null" depending on the
+		// reading; the colon forms do not distinguish the two
+		nd.Assume(op[0] == ':')
+	}
 
 	val := ""
 	if st == stVal {
@@ -98,7 +105,7 @@ func C13_Table() {
 	name := "v"
 	var env *interp.ExecEnv
 	if positional {
-		name = "1"
+		name = []string{"v", "1", "*", "@"}[kind]
 		if st == stUnset {
 			env = interp.NewExecEnv("sh")
 		} else {
@@ -134,8 +141,10 @@ func C13_Table() {
 		nd.Cover("fail")
 		_, isPE := err.(interp.ParamExpError)
 		nd.Assert(isPE, "unset/null parameter with ? yields a ParamExpError")
-		v, set := env.Get(name)
-		nd.Assert(set == (st != stUnset) && (!set || v.Value == val), "a failing expansion leaves the parameter untouched")
+		if !special {
+			v, set := env.Get(name)
+			nd.Assert(set == (st != stUnset) && (!set || v.Value == val), "a failing expansion leaves the parameter untouched")
+		}
 		return
 	}
 	if assign && positional {
@@ -155,6 +164,11 @@ func C13_Table() {
 		nd.Assert(len(got) == 0, "empty unquoted expansion yields no field")
 	} else {
 		nd.Assert(len(got) == 1 && got[0] == res, "unquoted expansion yields the table value")
+	}
+	if special {
+		nd.Cover("special")
+		nd.Assert(len(env.Args) == 1+b2i(st != stUnset) && (st == stUnset || env.Args[1] == val), "the positional parameters are unchanged")
+		return
 	}
 	v, set := env.Get(name)
 	if assign {
